@@ -151,7 +151,7 @@ def gen_cases(tier, seed):
         cases.append(c)
     cases += long_[li:]
     global SHARD
-    SHARD = 400 if thorough else 700      # few, larger shards: coqc start-up dominates small ones
+    SHARD = 280 if thorough else 700      # few, larger shards (< 300 kB): coqc start-up dominates small ones
     return cases
 
 
